@@ -648,7 +648,7 @@ class Decode(Suite):
             have = group(flat_impl(ex["entries"]))
             if have == want:
                 continue
-            fails[i] = self.diff_kind(have, want) + ": go-git reads %s, git %s" % (show_group(have), show_group(want))
+            fails[i] = self.diff_kind(have, g) + ": go-git reads %s, git %s" % (show_group(have), show_group(want))
         return fails
 
     @staticmethod
@@ -673,11 +673,16 @@ class Decode(Suite):
         return None
 
     @classmethod
-    def diff_kind(cls, have, want):
-        """classify HOW the two readings differ: '+'-joined narrow kinds, or 'other'"""
+    def diff_kind(cls, have, want_entries):
+        """classify HOW the two readings differ: '+'-joined narrow kinds, or 'other'.
+        want_entries: git's ordered (name, value) list"""
+        import re
         kinds = set()
-        if any(b".." in k for k in want) and not any(k.replace(b"..", b".", 1) in want for k in want if b".." in k):
-            want = {k.replace(b"..", b".", 1): v for k, v in want.items()}
+        want = group(want_entries)
+        empty_sub = re.compile(rb"^([a-z0-9-]+)\.\.([a-z][a-z0-9-]*)$")
+        if any(empty_sub.match(k) for k in want):
+            # [sec ""]: go-git files the keys under the plain section, in file order
+            want = group([(empty_sub.sub(rb"\1.\2", n), v) for n, v in want_entries])
             kinds.add("empty-subsection")
         if sorted(have) != sorted(want):
             return "other"
